@@ -141,6 +141,63 @@ def _eq_terms(res, tag, what, xa, xb, s, replay, keyof=None):
             res["unknown"].append((f"{tag}:{what}[{i}]", r_))
 
 
+def _export_vs_direct(name, direct, expdir, lines, fmt, res, label):
+    """rate coefficients and derivatives of the project exported under <expdir>, re-rendered from its own files,
+    against the direct rendering of the same network object (SMT equivalence per entry); a refusal is allowed"""
+    tgt = proj.TARGETS["dense"]
+    tdir = tgt["dir"]
+    s = z3.Solver()
+    s.set("timeout", 60_000)
+    try:
+        rd = ode.run_rates(direct, tdir, lifted=ode.load(direct, tdir, "rates", extra=("naunet_constants.cpp",), lift=True))
+        fd = ode.run_fex(direct, tdir)
+    except Inconclusive as e:
+        res["unknown"].append((label, f"encoder: {e}"))
+        return
+    if rd.compile_errors or fd.compile_errors:
+        res["unknown"].append((label, "direct rendering does not compile (C05/C10)"))
+        return
+    res["functions"] += [f"{tdir}:EvalRates", f"{tdir}:Fex"]
+    s.add(inv_axioms())
+    t0 = time.time()
+    exp = proj.rerender_exported(direct, expdir, tdir)
+    if not exp.ok:
+        res["ok"].append(f"{label}:refused")
+        res["notes"].append(f"exported project refused on re-render (allowed by the property): {exp.meta.get('error', '')[-200:]}")
+    else:
+        res["programs"] += 1
+        try:
+            if exp.macros(tdir) != direct.macros(tdir):
+                dm, em = direct.macros(tdir), exp.macros(tdir)
+                diff = {k: (dm.get(k), em.get(k)) for k in sorted(set(dm) | set(em)) if dm.get(k) != em.get(k)}
+                res["viol"].append({"key": f"{label}:macros", "what": f"macro table of the re-rendered export differs from the direct rendering of the exported network: {dict(list(diff.items())[:5])}", "replay": {"case": name, "diff": {k: list(v) for k, v in list(diff.items())[:40]}}})
+            else:
+                re_ = ode.run_rates(exp, tdir, lifted=ode.load(exp, tdir, "rates", extra=("naunet_constants.cpp",), lift=True))
+                fe = ode.run_fex(exp, tdir)
+                if re_.compile_errors or fe.compile_errors:
+                    tu, err = next(iter((re_.compile_errors or fe.compile_errors).items()))
+                    first = next((l for l in err.splitlines() if "error:" in l), err[:200])
+                    res["notes"].append(f"re-rendered export does not compile: {first[-160:]}")
+                    res["unknown"].append((label, "re-rendered export does not compile (a loud failure, not a silent change)"))
+                else:
+                    rmeta = direct.meta["reactions"]
+
+                    def keyof(i):
+                        r = rmeta[i] if i < len(rmeta) else {}
+                        code = r.get("extra", {}).get("code") or r.get("extra", {}).get("rtype") or r.get("extra", {}).get("formula")
+                        if lines is not None and i < len(lines):
+                            code = lines[i]["code"]
+                        return f"export-retyped:{fmt}:code={code!r}:type={r.get('reaction_type')}"
+
+                    from ..native import NativeEval
+                    natives = (NativeEval(direct, tdir, real_rates=True), NativeEval(exp, tdir, real_rates=True), direct.macros(tdir)["NEQUATIONS"])
+                    _eq_terms(res, label, "k", rd.kout, re_.kout, s, {"case": name, "format": fmt, "config": exp.meta.get("config_text", "")[-800:], "natives": natives}, keyof)
+                    _eq_terms(res, label, "ydot", fd.ydot, fe.ydot, s, {"case": name, "format": fmt})
+        except Inconclusive as e:
+            res["unknown"].append((label, f"encoder: {e}"))
+    res["solver_s"] += time.time() - t0
+
+
 def _analyse(name, base, lines, fmt, tier, res):
     tgt = proj.TARGETS["dense"]
     tdir = tgt["dir"]
@@ -178,55 +235,21 @@ def _analyse(name, base, lines, fmt, tier, res):
         else:
             res["ok"].append(f"{name}:cycle-species")
     # -- E1: direct rendering vs re-read copy vs exported + re-rendered
-    s = z3.Solver()
-    s.set("timeout", 60_000)
-    try:
-        rd = ode.run_rates(direct, tdir, lifted=ode.load(direct, tdir, "rates", extra=("naunet_constants.cpp",), lift=True))
-        fd = ode.run_fex(direct, tdir)
-    except Inconclusive as e:
-        res["unknown"].append((name, f"encoder: {e}"))
-        return
-    if rd.compile_errors or fd.compile_errors:
-        res["unknown"].append((name, "direct rendering does not compile (C05/C10)"))
-        return
-    res["functions"] += [f"{tdir}:EvalRates", f"{tdir}:Fex"]
-    s.add(inv_axioms())
-    t0 = time.time()
-    exp = proj.rerender_exported(direct, "exp", tdir)
-    if not exp.ok:
-        res["ok"].append(f"{name}:export-refused")
-        res["notes"].append(f"exported project refused on re-render (allowed by the property): {exp.meta.get('error', '')[-200:]}")
-    else:
-        res["programs"] += 1
-        try:
-            if exp.macros(tdir) != direct.macros(tdir):
-                res["viol"].append({"key": f"{name}:export:macros", "what": "macro table of the re-rendered export differs from the direct rendering", "replay": {"case": name}})
-            else:
-                re_ = ode.run_rates(exp, tdir, lifted=ode.load(exp, tdir, "rates", extra=("naunet_constants.cpp",), lift=True))
-                fe = ode.run_fex(exp, tdir)
-                if re_.compile_errors or fe.compile_errors:
-                    tu, err = next(iter((re_.compile_errors or fe.compile_errors).items()))
-                    first = next((l for l in err.splitlines() if "error:" in l), err[:200])
-                    res["notes"].append(f"re-rendered export does not compile: {first[-160:]}")
-                    res["unknown"].append((f"{name}:export", "re-rendered export does not compile (a loud failure, not a silent change)"))
-                else:
-                    s.add(inv_axioms())
-                    rmeta = direct.meta["reactions"]
-
-                    def keyof(i):
-                        r = rmeta[i] if i < len(rmeta) else {}
-                        code = r.get("extra", {}).get("code") or r.get("extra", {}).get("rtype") or r.get("extra", {}).get("formula")
-                        if lines is not None and i < len(lines):
-                            code = lines[i]["code"]
-                        return f"export-retyped:{fmt}:code={code!r}:type={r.get('reaction_type')}"
-
-                    from ..native import NativeEval
-                    natives = (NativeEval(direct, tdir, real_rates=True), NativeEval(exp, tdir, real_rates=True), direct.macros(tdir)["NEQUATIONS"])
-                    _eq_terms(res, f"{name}:export-rerender", "k", rd.kout, re_.kout, s, {"case": name, "format": fmt, "config": exp.meta.get("config_text", "")[-800:], "natives": natives}, keyof)
-                    _eq_terms(res, f"{name}:export-rerender", "ydot", fd.ydot, fe.ydot, s, {"case": name, "format": fmt})
-        except Inconclusive as e:
-            res["unknown"].append((f"{name}:export", f"encoder: {e}"))
-    res["solver_s"] += time.time() - t0
+    _export_vs_direct(name, direct, "exp", lines, fmt, res, f"{name}:export-rerender")
+    # -- the same after a history: the project directory already holds the export of an *earlier* version of the
+    #    network (last reaction missing, first coefficient different); exporting the final network over it
+    #    (overwrite=True) must leave a project that describes the final network
+    if len(direct.meta["reactions"]) >= 2:
+        hist_ops = [{"op": "exec", "code": "net._verif_last = net.reaction_list[-1]\nnet.remove_reaction(len(net.reaction_list) - 1)\nr0 = net.reaction_list[0]\nr0._verif_alpha = r0.alpha\nr0.alpha = r0.alpha * 2 + 1\n"},
+                    {"op": "export", "name": tdir, "prefix": "exph"},
+                    {"op": "exec", "code": "r0 = net.reaction_list[0]\nr0.alpha = r0._verif_alpha\nnet.add_reaction(net._verif_last)\n"},
+                    {"op": "export", "name": tdir, "prefix": "exph"}]
+        hist = proj.render(f"{name}-history", dict(base, targets=[dict(tgt)], ops=hist_ops))
+        if not hist.ok or not hist.target_ok(tdir):
+            res["notes"].append(f"{name}: export history not rendered: {str(hist.meta.get('error') or hist.meta['targets'].get(tdir))[-200:]}")
+        else:
+            res["programs"] += 1
+            _export_vs_direct(name, hist, "exph", lines, fmt, res, f"{name}:export-over-earlier-export")
     if len(res["samples"]) < 1:
         res["samples"].append({"case": name, "reactions": len(direct.meta["reactions"]), "compared": "write/read fields (ground) + k/ydot terms direct vs exported+re-rendered (SMT)"})
 
